@@ -4,16 +4,22 @@ from .c06 import kernel_cases
 from .kernel import rid
 
 TYPES = ["iter", "intersect_0", "intersect_1", "populate_1", "populate_read_0", "populate_write_0"]
+UTYPES = ["union_0", "union_1", "union_2", "union_3"]
 
 
 def cases_for(ctx, n):
     rng = ctx.rng
     pool = [k for k in kernel_cases(rng, 4 if ctx.quick else 14, True, pz=0.25) if k["style"] == "tf"]
+    # element-wise addition in the union idiom (z_m << (a_m | b_m)): union_i rows
+    from .c06 import no_ghost_tree
+    plus = {"out": ["m"], "facs": [{"t": "A", "ix": ["m"]}, {"t": "B", "ix": ["m"]}], "plus": 1}
+    upool = [{"shape": "ewadd", "expr": plus, "ops": {"A": no_ghost_tree(rng, 5, 1, 0.2), "B": no_ghost_tree(rng, 5, 1, 0.2)}, "order": ["m"], "style": "tf",
+              "extents": {"m": 5}, "zshape": 1} for _ in range(max(4, len(pool) // 8))]
     cases = []
     for _ in range(n):
-        k = dict(rng.choice(pool))
+        k = dict(rng.choice(upool if rng.random() < 0.15 else pool))
         ranks = [rid(v) for v in k["order"]]
-        traces = sorted([r, t] for r in ranks for t in TYPES)
+        traces = sorted([r, t] for r in ranks for t in TYPES + (UTYPES if k["expr"].get("plus") else []))
         base = {"kid": 0, "kernel": k, "collect": 1, "traces": traces, "abort": 0}
         seq = [dict(base, ncache=0), dict(base, ncache=2), dict(base, ncache=3, consume=1), dict(base, ncache=0, consume=1)]
         cases.append({"sessions": seq})
